@@ -188,6 +188,21 @@ def directed_paths(rng, n):
         ops.append(('set_feed', dict(f=[dr.q(F(rng.choice([2, 4, 8]))) for _ in dr.IDS])))
         ops.append(('react_set', dict(how=rng.choice(['stream', 'stream_wt', 'array']))))
         out.append([dict(op=o, a=a) for o, a in ops])
+        if len(out) % 4 == 0:
+            # a set built from members whose conversions were written as the integers 0 / 1, then given fractional conversions
+            # through the set (or through its items), then applied
+            i1, i2 = rng.randrange(1, len(dr.LIB) + 1), rng.randrange(1, len(dr.LIB) + 1)
+            r1 = rng.choice([c + 1 for c, v in enumerate(dr.LIB[i1 - 1]) if v < 0])
+            r2 = rng.choice([c + 1 for c, v in enumerate(dr.LIB[i2 - 1]) if v < 0])
+            ops = [('load', dict(x='r1', i=i1, r=r1, X=dr.q(F(rng.choice([0, 1]))))), ('load', dict(x='r2', i=i2, r=r2, X=dr.q(F(rng.choice([0, 1]))))),
+                   ('mkset', dict(kind=rng.choice(['parallel', 'series']), xs=['r1', 'r2']))]
+            if rng.random() < 0.6:
+                ops.append(('set_assign_X', dict(Xs=[dr.q(F(1, 2)), dr.q(F(1, 4))])))
+            else:
+                ops += [('item_set_X', dict(i=1, X=dr.q(F(1, 4)))), ('set_set_X', dict(i=2, X=dr.q(F(1, 2))))]
+            ops.append(('set_feed', dict(f=[dr.q(F(rng.choice([4, 8]))) for _ in dr.IDS])))
+            ops.append(('react_set', dict(how=rng.choice(['stream', 'array']))))
+            out.append([dict(op=o, a=a) for o, a in ops])
     return out
 
 
